@@ -67,13 +67,12 @@ def run(run_, ctx):
             else:
                 evs, ret = split(full[0])
                 pushes = [re.sub(r"^#\d+ = <B as Flavor>::try_push\(&\{[^}]*\}, (.*)\)$", r"\1", e) for e in evs if "Flavor>::try_push(" in e]
-                exp = ["(#1 as u8)"] + ["(Shr(#1, %d) as u8)" % (8 * k) for k in range(1, nb)]
+                D = "finalize(self.digest)"
+                exp = ["(%s as u8)" % D] + ["(Shr(%s, %d) as u8)" % (D, 8 * k) for k in range(1, nb)]
                 if nb == 1:
-                    exp = ["#1"]
+                    exp = [D]
                 if pushes != exp:
-                    probs.append("checksum bytes pushed are %s, expected little-endian %s" % (pushes, exp))
-                if not evs or "::finalize(self.digest)" not in evs[0]:
-                    probs.append("the checksum pushed is not the digest's final value")
+                    probs.append("checksum bytes pushed are %s, expected the little-endian bytes of the digest's final value %s" % (pushes, exp))
                 if not evs or not re.match(r"^#(\d+) = <B as Flavor>::finalize\(", evs[-1]) or ret != "Result::Ok(okval(#%d))" % len(evs):
                     probs.append("inner flavor is not finalized last")
         else:
@@ -105,9 +104,8 @@ def run(run_, ctx):
                 evs, ret = split(o)
                 if not any("try_take_n(&{self.flav}, %d)" % nb in e for e in evs):
                     probs.append("does not take exactly %d checksum bytes" % nb)
-                dig = [k + 1 for k, e in enumerate(evs) if "::finalize(self.digest)" in e]
                 for c in o["when"]:
-                    eq = [l for l in c if l[0] == "lin" and l[2] == [[0, 0]] and ("from_le_bytes::<%s>(" % w) in l[1] and dig and ("#%d" % dig[0]) in l[1]
+                    eq = [l for l in c if l[0] == "lin" and l[2] == [[0, 0]] and ("from_le_bytes::<%s>(" % w) in l[1] and "finalize(self.digest)" in l[1]
                           and "okval(#1)" in l[1]]
                     if not eq:
                         probs.append("Ok(remainder) is not guarded by digest == from_le_bytes(the %d checksum bytes taken)" % nb)
